@@ -923,4 +923,29 @@ theorem toyPrims_lawful : toyPrims.Lawful where
   xc20p_tag := rfl
 
 
+
+/-! ### an observation about the degenerate key wrap of the empty input -/
+
+theorem kwUnwrapPasses_nil (dec : Bytes → Bytes) (blocks : Nat) : ∀ (k j : Nat) (iv : Bytes),
+    kwUnwrapPasses dec blocks k j iv [] = (iv, [])
+  | 0, _, _ => rfl
+  | k + 1, j, iv => by simp [kwUnwrapPasses, kwUnwrapPasses_nil dec blocks k, kwUnwrapPass]
+
+/-- n = 0 (outside RFC 3394, which requires n ≥ 2, but accepted by the code): the eight bytes A6…A6 unwrap
+    to the empty string under EVERY key and EVERY block cipher — the check value is not bound to the key. -/
+theorem kw_empty_unwraps_under_every_key (C : BlockCipher) (key : Bytes) : kwDecrypt C key kwIv [] [] = .ok [] := by
+  have h : kwIv.length = 8 := by decide
+  unfold kwDecrypt
+  simp [h, sliceRange, tryInto8, drainFront, Cbc.chunks, Cbc.chunksN, kwUnwrapPasses_nil]
+  have e1 : List.take 8 kwIv = kwIv := by decide
+  have e2 : List.drop 8 kwIv = [] := by decide
+  rw [if_pos e1, e2]
+
+/- OPEN (not attempted, outside the budget):
+   * `kw_wrap_unwrap` : kwDecrypt C key c [] [] = .ok p → kwEncrypt C key p [] [] = .ok (c, c.length)
+     (the converse round trip; needs `enc (dec b) = b`, which is not among the assumed laws).
+   * a refinement theorem tying `Crypto.KeyWrap.wrapWith` (index form of RFC 3394 §2.2.1, ByteArray) to the model's
+     `kwWrapPasses` (the Rust's chunk loop): today both are only compared by execution (bit-for-bit agreement of the
+     driver, which runs the model's loop over the AES spec, with the RFC vectors and with the implementation). -/
+
 end Askar.Aead.Lemmas
